@@ -84,6 +84,11 @@ func (c RawConfiguration) handleAsyncCall(ctx context.Context, fut *Async, state
 	)
 
 	for {
+		// all targeted nodes (possibly none) have answered without a quorum
+		if len(errs)+len(replies) == state.expectedReplies {
+			fut.reply, fut.err = resp, QuorumCallError{cause: Incomplete, errors: errs, replies: len(replies)}
+			return
+		}
 		select {
 		case r := <-state.replyChan:
 			if r.err != nil {
@@ -97,10 +102,6 @@ func (c RawConfiguration) handleAsyncCall(ctx context.Context, fut *Async, state
 			}
 		case <-ctx.Done():
 			fut.reply, fut.err = resp, QuorumCallError{cause: ctx.Err(), errors: errs, replies: len(replies)}
-			return
-		}
-		if len(errs)+len(replies) == state.expectedReplies {
-			fut.reply, fut.err = resp, QuorumCallError{cause: Incomplete, errors: errs, replies: len(replies)}
 			return
 		}
 	}
